@@ -26,6 +26,11 @@ def writeParams : List Ident → Bool → CW → CW
 /-- token head of most nodes: leading comments, mapping -/
 def CW.head (cw : CW) (tok : Token) : CW := (cw.leadingComments tok.comments).addMapping tok.sl tok.sc
 
+/-- an integer literal without radix prefix: a dot directly behind it would be read as a decimal point -/
+def Expr.isDecimalInt : Expr → Bool
+  | .int tok => !tok.lit.isEmpty && tok.lit.all (fun c => 48 ≤ c && c ≤ 57)
+  | _ => false
+
 /-- the operand is a prefix `--` expression -/
 def Expr.isDecrement : Expr → Bool
   | .unary _ op _ => op == [45, 45]
@@ -82,9 +87,12 @@ mutual
       (cw.decreaseIndent).writeRune 41
     | .member tok obj prop computed, cw =>
       let cw := writeExpr obj cw
-      let cw := cw.head tok
-      if computed then (writeExpr prop (cw.writeRune 91)).writeRune 93
-      else writeExpr prop (cw.writeRune 46)
+      let cw := cw.leadingComments tok.comments
+      if computed then (writeExpr prop ((cw.addMapping tok.sl tok.sc).writeRune 91)).writeRune 93
+      else
+        -- `1.toString()` would read `1.` as a number: a blank keeps the literal and the dot apart
+        let cw := if obj.isDecimalInt then cw.writeRune 32 else cw
+        writeExpr prop ((cw.addMapping tok.sl tok.sc).writeRune 46)
     | .assign tok l v, cw =>
       let cw := writeExpr l cw
       let cw := ((((cw.writeSpace).head tok).writeRune 61).writeSpace)
